@@ -28,7 +28,7 @@ from common import COQ, REPO, cz, clist, cnat, cbool, copt
 
 LEVEL = "proof"
 THEOREMS = "Props/C03.v"
-EXTRA_TARGETS = ("Traj/Encode.vo",)
+EXTRA_TARGETS = ("Traj/Encode.vo", "Gen/TrajFlow.vo")
 EXTS = ["_rmsd"]
 RULE = ("operation histories over {t[key] (int, negative int, slice incl. reversed/strided/clipped, index list/array, "
         "bool mask), slice(copy=False), join / + / join(list) / md.join, stack, atom_slice(inplace F/T), remove_solvent, "
@@ -53,6 +53,307 @@ VARIANTS = [("fix", "fix"), ("cur", "fix"), ("fix", "cur"), ("cur", "cur")]     
 VNAME = {0: "repaired", 1: "slice_traces_unindexed", 2: "atom_slice_inplace_keeps_traces",
          3: "slice_traces_unindexed+atom_slice_inplace_keeps_traces"}
 ERR = {0: "ok", 1: "IndexError", 2: "ValueError", 3: "TypeError", 9: "NoReg"}
+
+
+# ----------------------------------------------------------------------------- translator (T3: field data-flow)
+import ast  # noqa: E402
+
+FIELD_ATTRS = {"xyz": "SXyz", "_xyz": "SXyz", "time": "STime", "_time": "STime",
+               "unitcell_lengths": "SLen", "_unitcell_lengths": "SLen", "unitcell_angles": "SAng",
+               "_unitcell_angles": "SAng", "_rmsd_traces": "STraces", "_topology": "STop", "topology": "STop",
+               "top": "STop"}
+
+
+class Untranslatable(Exception):
+    pass
+
+
+def _is_self_attr(node, attrs=None):
+    return (isinstance(node, ast.Attribute) and isinstance(node.value, ast.Name) and node.value.id == "self"
+            and (attrs is None or node.attr in attrs))
+
+
+class FlowInterp:
+    """abstract interpretation of one method body: local name -> flow term (nested tuples)"""
+
+    def __init__(self, keyname):
+        self.env = {}
+        self.keyname = keyname          # name of the index argument ('key' / 'atom_indices')
+        self.ctor = None                # flows passed to the constructor that is returned
+        self.obj_attrs = {}             # newtraj.<attr> = ...
+        self.self_attrs = None          # attributes of self assigned in the `if inplace:` branch
+
+    def expr(self, e):
+        if isinstance(e, ast.Constant) and e.value is None:
+            return ("FNone",)
+        if isinstance(e, ast.Name):
+            if e.id in self.env:
+                return self.env[e.id]
+            raise Untranslatable("unbound name %s" % e.id)
+        if _is_self_attr(e, FIELD_ATTRS):
+            return ("FField", FIELD_ATTRS[e.attr])
+        if isinstance(e, ast.Subscript):
+            base = self.expr(e.value)
+            sl = e.slice
+            if isinstance(sl, ast.Name) and sl.id == self.keyname:
+                return ("FIdx", base)
+            if (isinstance(sl, ast.Tuple) and len(sl.elts) == 2 and isinstance(sl.elts[0], ast.Slice)
+                    and sl.elts[0].lower is None and sl.elts[0].upper is None and sl.elts[0].step is None
+                    and isinstance(sl.elts[1], ast.Name) and sl.elts[1].id == self.keyname):
+                return ("FAtoms", base)
+            raise Untranslatable("subscript " + ast.dump(sl)[:80])
+        if isinstance(e, ast.Call):
+            f = e.func
+            kw = {k.arg: k.value for k in e.keywords}
+            if isinstance(f, ast.Attribute) and f.attr == "copy" and not e.args and not kw:
+                return ("FCopy", self.expr(f.value))
+            if isinstance(f, ast.Name) and f.id == "deepcopy" and len(e.args) == 1:
+                return ("FDeep", self.expr(e.args[0]))
+            if isinstance(f, ast.Attribute) and isinstance(f.value, ast.Name) and f.value.id == "np":
+                if f.attr == "array" and len(e.args) == 1:
+                    if set(kw) == {"ndmin", "copy"} and getattr(kw["ndmin"], "value", None) == 1 and getattr(kw["copy"], "value", None) is True:
+                        return ("FArr1", self.expr(e.args[0]))
+                    if set(kw) <= {"order", "copy"} and getattr(kw.get("copy"), "value", True) is True:
+                        return ("FCopy", self.expr(e.args[0]))
+                if f.attr == "concatenate" and len(e.args) == 1 and isinstance(e.args[0], ast.ListComp):
+                    lc = e.args[0]
+                    if (len(lc.generators) == 1 and isinstance(lc.generators[0].iter, ast.Name)
+                            and lc.generators[0].iter.id == "trajectories" and isinstance(lc.elt, ast.Attribute)
+                            and isinstance(lc.elt.value, ast.Name) and lc.elt.value.id == lc.generators[0].target.id
+                            and lc.elt.attr in FIELD_ATTRS):
+                        return ("FConcat", FIELD_ATTRS[lc.elt.attr])
+                if f.attr == "hstack" and len(e.args) == 1 and isinstance(e.args[0], ast.Tuple) and len(e.args[0].elts) == 2:
+                    a, b = e.args[0].elts
+                    if _is_self_attr(a, ("xyz", "_xyz")) and isinstance(b, ast.Attribute) and b.attr in ("xyz", "_xyz") \
+                            and isinstance(b.value, ast.Name) and b.value.id == "other":
+                        return ("FHstack",)
+            if isinstance(f, ast.Attribute) and f.attr == "subset" and _is_self_attr(f.value, ("_topology", "topology", "top")) \
+                    and len(e.args) == 1 and isinstance(e.args[0], ast.Name) and e.args[0].id == self.keyname:
+                return ("FSubset",)
+            if isinstance(f, ast.Attribute) and f.attr == "join" and _is_self_attr(f.value, ("_topology", "topology", "top")) \
+                    and e.args and isinstance(e.args[0], ast.Attribute) and e.args[0].attr in ("_topology", "topology", "top"):
+                return ("FTopJoin",)
+        raise Untranslatable("expression " + ast.dump(e)[:100])
+
+    def is_ctor(self, e):
+        if not isinstance(e, ast.Call):
+            return False
+        f = e.func
+        return (isinstance(f, ast.Name) and f.id == "Trajectory") or \
+               (isinstance(f, ast.Attribute) and f.attr == "__class__" and isinstance(f.value, ast.Name) and f.value.id == "self")
+
+    def ctor_flow(self, e):
+        names = ["xyz", "topology", "time", "unitcell_lengths", "unitcell_angles"]
+        got = {}
+        for n, a in zip(names, e.args):
+            got[n] = self.expr(a)
+        for k in e.keywords:
+            if k.arg not in names or k.arg in got:
+                raise Untranslatable("constructor argument %s" % k.arg)
+            got[k.arg] = self.expr(k.value)
+        if "xyz" not in got or "topology" not in got:
+            raise Untranslatable("constructor without xyz/topology")
+        return {"xyz": got["xyz"], "top": got["topology"], "time": got.get("time", ("FNone",)),
+                "len": got.get("unitcell_lengths", ("FNone",)), "ang": got.get("unitcell_angles", ("FNone",))}
+
+    def assign(self, target, val):
+        if isinstance(target, ast.Name):
+            self.env[target.id] = val
+        elif isinstance(target, ast.Attribute) and isinstance(target.value, ast.Name):
+            if target.value.id == "self":
+                if self.self_attrs is None:
+                    raise Untranslatable("assignment to self.%s outside the in-place branch" % target.attr)
+                if target.attr not in FIELD_ATTRS:
+                    raise Untranslatable("self.%s" % target.attr)
+                self.self_attrs[FIELD_ATTRS[target.attr]] = val
+            else:
+                if target.attr not in FIELD_ATTRS:
+                    raise Untranslatable("%s.%s" % (target.value.id, target.attr))
+                self.obj_attrs[FIELD_ATTRS[target.attr]] = val
+        else:
+            raise Untranslatable("assignment target")
+
+    def presence_test(self, t):
+        """`X is not None`, `self._have_unitcell`: the body describes the field when it is present"""
+        if isinstance(t, ast.Compare) and len(t.ops) == 1 and isinstance(t.ops[0], ast.IsNot) \
+                and isinstance(t.comparators[0], ast.Constant) and t.comparators[0].value is None:
+            return True
+        return _is_self_attr(t, ("_have_unitcell",))
+
+    def block(self, stmts):
+        for st in stmts:
+            if isinstance(st, ast.Expr) and isinstance(st.value, ast.Constant):
+                continue                                   # docstring
+            if isinstance(st, ast.Assign):
+                if len(st.targets) == 1 and isinstance(st.targets[0], ast.Tuple):
+                    if not isinstance(st.value, ast.Tuple) or len(st.value.elts) != len(st.targets[0].elts):
+                        raise Untranslatable("tuple assignment")
+                    for t, v in zip(st.targets[0].elts, st.value.elts):
+                        self.assign(t, self.expr(v))
+                else:
+                    val = None
+                    if self.is_ctor(st.value):
+                        self.ctor = self.ctor_flow(st.value)
+                        for t in st.targets:
+                            if not isinstance(t, ast.Name):
+                                raise Untranslatable("constructor target")
+                        continue
+                    val = self.expr(st.value)
+                    for t in st.targets:
+                        self.assign(t, val)
+            elif isinstance(st, ast.If):
+                t = st.test
+                if isinstance(t, ast.Name) and t.id == "copy":
+                    before = dict(self.env)
+                    self.block(st.body)
+                    then_env = self.env
+                    self.env = dict(before)
+                    self.block(st.orelse)
+                    else_env = self.env
+                    merged = {}
+                    for k in set(then_env) | set(else_env):
+                        a, b = then_env.get(k), else_env.get(k)
+                        if a == b:
+                            merged[k] = a
+                        elif a is not None and b is not None and a in (("FCopy", b), ("FDeep", b)):
+                            merged[k] = ("FCopyIf", b)
+                        else:
+                            raise Untranslatable("`if copy` branches of %s: %s vs %s" % (k, a, b))
+                    self.env = merged
+                elif isinstance(t, ast.Name) and t.id == "inplace":
+                    if st.orelse:
+                        raise Untranslatable("else branch of `if inplace`")
+                    saved = dict(self.env)
+                    self.self_attrs = {}
+                    body = [x for x in st.body if not isinstance(x, ast.Return)]
+                    self.block(body)
+                    self.inplace = self.self_attrs
+                    self.self_attrs = None
+                    self.env = saved
+                elif self.presence_test(t):
+                    if st.orelse:
+                        raise Untranslatable("else branch of a presence test")
+                    self.block(st.body)
+                elif isinstance(t, ast.BoolOp) or isinstance(t, ast.UnaryOp) or isinstance(t, ast.Call) \
+                        or isinstance(t, ast.Compare) or isinstance(t, ast.Name):
+                    # validation that only raises / rewrites operands: must not bind any field variable
+                    for x in ast.walk(st):
+                        if isinstance(x, ast.Return):
+                            raise Untranslatable("return inside a validation branch")
+                    assigned = {n.id for x in ast.walk(st) if isinstance(x, ast.Assign) for n in x.targets if isinstance(n, ast.Name)}
+                    if assigned & {"xyz", "time", "lengths", "angles", "unitcell_lengths", "unitcell_angles", "topology", "rmsd_traces"}:
+                        raise Untranslatable("field variable assigned inside a validation branch")
+                else:
+                    raise Untranslatable("if " + ast.dump(t)[:80])
+            elif isinstance(st, ast.Return):
+                if st.value is not None and self.is_ctor(st.value):
+                    self.ctor = self.ctor_flow(st.value)
+                elif isinstance(st.value, ast.Name):
+                    pass                                   # returns the object built earlier
+                else:
+                    raise Untranslatable("return value")
+            elif isinstance(st, (ast.Raise, ast.Pass, ast.For, ast.ImportFrom, ast.Import)):
+                if isinstance(st, ast.For):
+                    raise Untranslatable("loop")
+            else:
+                raise Untranslatable("statement " + type(st).__name__)
+
+
+def coq_fexp(t):
+    if len(t) == 1:
+        return t[0]
+    if t[0] in ("FField", "FConcat"):
+        return "(%s %s)" % (t[0], t[1])
+    return "(%s %s)" % (t[0], coq_fexp(t[1]))
+
+
+def coq_flow(d, traces):
+    return "mkFlow %s %s %s %s %s %s" % (coq_fexp(d["xyz"]), coq_fexp(d["time"]), coq_fexp(d["len"]), coq_fexp(d["ang"]),
+                                          coq_fexp(d["top"]), coq_fexp(traces))
+
+
+def extract_flows(src_text):
+    tree = ast.parse(src_text)
+    cls = [n for n in tree.body if isinstance(n, ast.ClassDef) and n.name == "Trajectory"]
+    if not cls:
+        raise Untranslatable("class Trajectory not found")
+    meth = {n.name: n for n in cls[0].body if isinstance(n, ast.FunctionDef)}
+    out = {}
+    # slice
+    it = FlowInterp("key")
+    it.block(meth["slice"].body)
+    if it.ctor is None:
+        raise Untranslatable("slice: no constructor call")
+    out["slice"] = coq_flow(it.ctor, it.obj_attrs.get("STraces", ("FNone",)))
+    # join: validation and the discard_overlapping_frames loop come first; interpret from `xyz = np.concatenate`
+    body = meth["join"].body
+    start = [i for i, st in enumerate(body) if isinstance(st, ast.Assign) and isinstance(st.targets[0], ast.Name)
+             and st.targets[0].id == "xyz"]
+    if not start:
+        raise Untranslatable("join: no xyz assignment")
+    it = FlowInterp("key")
+    it.block(body[start[0]:])
+    if it.ctor is None:
+        raise Untranslatable("join: no constructor call")
+    out["join"] = coq_flow(it.ctor, ("FNone",))
+    # stack
+    it = FlowInterp("key")
+    body = [st for st in meth["stack"].body if not (isinstance(st, ast.If) and any(isinstance(x, ast.Raise) for x in ast.walk(st)))]
+    for st in body:                                        # `if self.topology is not None: topology = ... else: topology = None`
+        if isinstance(st, ast.If) and st.orelse:
+            st.orelse = []
+    it.block(body)
+    if it.ctor is None:
+        raise Untranslatable("stack: no constructor call")
+    out["stack"] = coq_flow(it.ctor, ("FNone",))
+    # atom_slice
+    it = FlowInterp("atom_indices")
+    it.inplace = None
+    it.block(meth["atom_slice"].body)
+    if it.ctor is None or it.inplace is None:
+        raise Untranslatable("atom_slice: constructor or in-place branch missing")
+    out["atom_slice"] = coq_flow(it.ctor, ("FNone",))
+    ip = it.inplace
+    keep = ("FKeep",)
+    out["atom_slice_inplace"] = "mkFlow %s %s %s %s %s %s" % tuple(
+        coq_fexp(ip.get(k, keep)) for k in ("SXyz", "STime", "SLen", "SAng", "STop", "STraces"))
+    return out
+
+
+def translate(ctx):
+    path = os.path.join(REPO, "mdtraj", "core", "trajectory.py")
+    try:
+        with open(path) as fh:
+            flows = extract_flows(fh.read())
+    except Exception as e:
+        # outside the translator's grammar (e.g. after a refactoring): no stale term may stand in; the tie for this
+        # run is the correspondence alone (main.py records 'translator: degraded')
+        ctx.write_gen("Gen/TrajFlow.v", "(* GENERATED: harness/props/C03.py:translate could not read mdtraj/core/trajectory.py\n"
+                                          "   (%s); the data-flow tie is degraded to the correspondence run. *)\n"
+                                          "Definition translator_degraded := true.\n" % str(e).replace("*)", "* )")[:300])
+        ctx.notes.pop("source_variant", None)
+        raise
+    text = ["(* GENERATED on every run by harness/props/C03.py:translate from mdtraj/core/trajectory.py -- do not edit.",
+            "   Field data-flow of Trajectory.slice / join / stack / atom_slice (term language: MD.Traj.Flow). *)",
+            "Require Import MD.Traj.Model MD.Traj.Flow.", ""]
+    for k in ("slice", "join", "stack", "atom_slice", "atom_slice_inplace"):
+        text.append("Definition %s_flow : flow := %s." % (k, flows[k]))
+    text += ["",
+             "(* the extracted flows are flows the model implements, for some variant of the two recorded defects *)",
+             "Definition source_variant : option variant := variant_of_flows slice_flow atom_slice_inplace_flow.",
+             "Lemma source_flows_are_modelled :",
+             "  match source_variant with",
+             "  | Some v => flows_known slice_flow atom_slice_inplace_flow join_flow stack_flow atom_slice_flow v",
+             "  | None => false",
+             "  end = true.",
+             "Proof. vm_compute. reflexivity. Qed.", ""]
+    ctx.write_gen("Gen/TrajFlow.v", "\n".join(text))
+    ctx.notes["translator"] = "ok"
+    # which variant the source text denotes (re-derived here only to cross-check it against the behaviour; the
+    # recognition itself is Lemma source_flows_are_modelled, checked by coqc)
+    d1_fixed = "FArr1" in flows["slice"]
+    d2_fixed = flows["atom_slice_inplace"].endswith("FNone")
+    ctx.notes["source_variant"] = {(True, True): 0, (False, True): 1, (True, False): 2, (False, False): 3}[(d1_fixed, d2_fixed)]
 
 
 # ----------------------------------------------------------------------------- generator
@@ -741,7 +1042,12 @@ def run_cases(ctx, cases, replaying=False):
         return
     worlds = [decode_all(x) for x in enc]
     # 1. the tie: one model variant reproduces the implementation on ALL cases
-    diffs = [[compare(w[v], im) for v in range(4)] for w, im in zip(worlds, impl)]
+    def safe_compare(m, im):
+        try:
+            return compare(m, im)
+        except (KeyError, IndexError, ValueError) as e:      # the model refers to data the run never produced
+            return ["model output cannot be evaluated against the run: %s: %s" % (type(e).__name__, e)]
+    diffs = [[safe_compare(w[v], im) for v in range(4)] for w, im in zip(worlds, impl)]
     agree = None
     for v in range(4):
         if all(not d[v] for d in diffs):
@@ -758,6 +1064,13 @@ def run_cases(ctx, cases, replaying=False):
                    "specs=%s ops=%s -> %s" % (VNAME[best], len(bad), len(cases), cases[i]["specs"], cases[i]["ops"], diffs[i][best][:3]))
         ctx.notes.setdefault("tie_examples", []).append({"case": cases[i], "diff": diffs[i][best][:5]})
         agree = best
+    sv = ctx.notes.get("source_variant")
+    if sv is not None and not replaying and any(d[sv] for d in diffs) and not ctx.broken:
+        i = min((i for i, d in enumerate(diffs) if d[sv]), key=lambda i: len(cases[i]["ops"]))
+        ctx.break_("tie:source-flow-vs-behaviour",
+                   "trajectory.py reads as variant '%s' but the implementation behaves like '%s'; e.g. ops=%s -> %s" % (
+                       VNAME[sv], VNAME[agree], cases[i]["ops"], diffs[i][sv][:2]))
+    ctx.notes.setdefault("coverage_extra", {})["source_text_variant"] = VNAME.get(sv)
     # 2. the property, judged by the model-free oracles on the implementation
     for ci, (c, im, w) in enumerate(zip(cases, impl, worlds)):
         case = {"seed": c["seed"], "specs": c["specs"], "ops": c["ops"]}
